@@ -4,8 +4,8 @@
    six handlers, in source order) over the complete abstract request lattice (46 656 requests) and
    checks served => Admit (the statement's predicate, DRKeyOps.tla) and that the key asked of the
    engine is the one of the authenticated / named entity.  The same run prints every lattice point.
-2. A deliberately broken variant of the model (host-host served to any named host) must violate the
-   invariant (non-vacuity of the model check; never a verdict).
+2. Thorough tier: a deliberately broken variant of the model (host-host served to any named host) must
+   violate the invariant (non-vacuity of the model check; never a verdict).
 3. The Go driver executes every lattice point against the real control/drkey/grpc.Server handlers
    (peer in the context, recording engine, fake certificate verifier), k concretisations each.
 4. TLC validates the recorded outcomes against DRKeyAdmitTrace.tla (served => Admit /\ key term).
@@ -26,11 +26,12 @@ def run(c):
         scns = sorted(set(l.strip().strip('"')[4:] for l in r.out.splitlines() if l.startswith('"SCN|')))
         if len(scns) != 46656:
             raise vlib.Infra("generator printed %d lattice points, expected 46656" % len(scns))
-        b = c.tlc("DRKeyAdmit", "DRKeyAdmitMC.broken.cfg", timeout=900)
-        if "ServedOnlyIfAdmitted" not in b.inv_violated:
-            raise vlib.Infra("the broken model variant does not violate ServedOnlyIfAdmitted: the "
-                             "model check is vacuous\n" + b.out[-2000:])
-        c.notes.append("model variant 'anyhost' violates ServedOnlyIfAdmitted as expected (model only)")
+        if c.thorough:     # non-vacuity of the model check (the design itself has no known defect)
+            b = c.tlc("DRKeyAdmit", "DRKeyAdmitMC.broken.cfg", timeout=900)
+            if "ServedOnlyIfAdmitted" not in b.inv_violated:
+                raise vlib.Infra("the broken model variant does not violate ServedOnlyIfAdmitted: the "
+                                 "model check is vacuous\n" + b.out[-2000:])
+            c.notes.append("model variant 'anyhost' violates ServedOnlyIfAdmitted as expected (model only)")
         scn = c.scratch + "/scenarios.txt"
         with open(scn, "w") as f:
             f.write("\n".join(scns) + "\n")
